@@ -372,7 +372,7 @@ func c06Corpus() []EncRec {
 	}
 	esc := "\x1b[31m"
 	for _, payload := range []string{esc, "\x1b[2J", "\x1b]0;title\a", "a\nb", "bell\a", "del\x7f"} {
-		for _, k := range []string{"string", "stringer", "error", "bytes", "struct", "map", "strs"} {
+		for _, k := range []string{"string", "stringer", "tostring", "error", "bytes", "struct", "map", "strs"} {
 			v := GVal{Kind: k, S: payload, I: 7}
 			if k == "strs" {
 				v = GVal{Kind: k, Strs: []string{"ok", payload}}
